@@ -209,4 +209,52 @@ theorem C14_witness_slb_stale_sorted :
     stickyWalk [⟨"10.0.0.0:80", 1⟩, ⟨"10.0.0.3:80", 1⟩] 0 = some "10.0.0.0:80" := by
   constructor <;> decide
 
+/-! ### acceptance by HostTableConfCheck does not depend on the order in which the two maps are enumerated -/
+
+/-- **`C14_hostcheck_order_independent`**: `HostTableConfCheck` is a conjunction of ∀-conditions over `Hosts` and
+    `HostTags`; whatever order Go ranges over the two maps in, the verdict (ok / error, never a crash) is the same.
+    (With `find := false` hoisted out of the per-tag loop the check becomes "the FIRST tag visited is owned", which is
+    order dependent: the model of the real code below checks every tag.) -/
+theorem C14_hostcheck_order_independent (f : HostFile) (hosts hosts' tags tags' : List (String × Option (List String)))
+    (hp : hosts.Perm hosts') (tp : tags.Perm tags') :
+    hostCheck { f with hosts := some hosts, hostTags := some tags } =
+    hostCheck { f with hosts := some hosts', hostTags := some tags' } := by
+  have key : ∀ a b : HostFile, (hostCheck a = .ok () ↔ hostCheck b = .ok ()) → hostCheck a = hostCheck b := by
+    intro a b hiff
+    have ha := hostCheck_ne_crash a
+    have hb := hostCheck_ne_crash b
+    cases h1 : hostCheck a with
+    | crash => exact absurd h1 ha
+    | ok u =>
+      cases u
+      exact ((hiff.mp h1)).symm
+    | err =>
+      cases h2 : hostCheck b with
+      | crash => exact absurd h2 hb
+      | err => rfl
+      | ok u => cases u; rw [hiff.mpr h2] at h1; exact absurd h1 (by simp)
+  apply key
+  rw [hostCheck_ok_iff, hostCheck_ok_iff]
+  exact ⟨hostCheckSpec_perm f hosts hosts' tags tags' hp tp, hostCheckSpec_perm f hosts' hosts tags' tags hp.symm tp.symm⟩
+
+/-- an ORPHAN host tag (a key of `Hosts` that no product lists) is always rejected, wherever it sits in the map -/
+theorem C14_orphan_tag_rejected (f : HostFile) (hosts tags : List (String × Option (List String)))
+    (hh : f.hosts = some hosts) (ht : f.hostTags = some tags)
+    (orphan : ∃ kv ∈ hosts, ∀ pt ∈ tags, kv.1 ∉ pt.2.getD []) : hostCheck f ≠ .ok () := by
+  intro h
+  obtain ⟨_, hosts', tags', _, hh', ht', _, h2, _⟩ := (hostCheck_ok_iff f).mp h
+  rw [hh] at hh'; rw [ht] at ht'
+  injection hh' with e1; injection ht' with e2
+  subst e1; subst e2
+  obtain ⟨kv, hkv, hno⟩ := orphan
+  obtain ⟨_, pt, hpt, hin⟩ := h2 kv hkv
+  exact hno pt hpt hin
+
+/-- non-vacuity: a valid tag and an orphan tag, in both orders → rejected both times -/
+def exOrphan (hosts : List (String × Option (List String))) : HostFile :=
+  { version := some "1", defaultProduct := none, hosts := some hosts, hostTags := some [("p", some ["good"])] }
+example : hostCheck (exOrphan [("good", some ["a.com"]), ("orphan", some ["b.com"])]) = .err ∧
+    hostCheck (exOrphan [("orphan", some ["b.com"]), ("good", some ["a.com"])]) = .err := by
+  constructor <;> decide
+
 end BfeVerif.C14
